@@ -110,7 +110,7 @@ def run(tier):
         for combo in itertools.product(trans, repeat=L):
             seqs.append([(0,) + t for t in combo])
     n_exh = len(seqs)
-    odd = [3, -1, 7, 255, 2147483647, -2147483648, 4, 256]
+    odd = [3, -1, 7, 255, 2147483647, -2147483648, 4, 256, 5, 6, -2, 258, 65537, 8, 16, -256]
     nrand = 2000 if tier == "quick" else 100000
     for k in range(nrand):
         ninst = 1 if k % 3 == 0 else (2 if k % 3 == 1 else 3)
